@@ -593,6 +593,8 @@ def check_c18(tier, seed, log=print):
     run.coverage['structured_definitions'] = defgen.tie(run, seed, 400 if tier == 'quick' else 4000, refmatch=refmatch)
     import logositems
     run.coverage['logos_items_predicted'] = logositems.tie(run, seed, 150 if tier == 'quick' else 2500)
+    import genericstie
+    run.coverage['impl_generics_predicted'] = genericstie.tie(run)
     run.coverage.update(dict(evaluations=n, distinct_nontrivial=len(nontriv), permutation_groups=len(groups),
                              rule='all permutations (with and without trailing comma, with and without a positional callback) of every subset of the named arguments, for #[token], #[regex] and skip(...); '
                                   'dependency-respecting permutations of #[logos(...)] items; every permutation must give the verdict, diagnostics, leaves and generated code of the first one; '
